@@ -49,6 +49,7 @@ pub fn wellformed(lang_code: &str, texts: &[&str], nan: &[bool], occ: &[Occ], ob
         }
         obs.label_if(o.ord, "ordinal-occurrence");
         obs.label_if(num.frac.is_some(), "decimal-occurrence");
+        obs.label_if(num.frac.as_ref().map_or(false, |f| f.len() >= 35), "decimal-with>=35-fraction-digits");
         obs.label_if(num.int.len() > 1 && num.int.starts_with('0'), "leading-zero-occurrence");
         obs.label_if(num.int.len() >= 16, ">=16-digit-occurrence");
         obs.label_if(num.reciprocal, "es-fraction-occurrence");
@@ -110,13 +111,45 @@ pub fn shaped_texts() -> BoxedStrategy<(String, String, u64)> {
         }).boxed()
 }
 
+/// English / German decimals dictated digit by digit whose exact value lies on (or one digit beyond) the
+/// midpoint between two adjacent doubles: I + F/2^(53-j) with 2^j <= I < 2^(j+1), F odd - 53-j fractional
+/// digits, optionally followed by one more digit or cut short by one. The correctly rounded value of such a
+/// text depends on its very last digit, so a value computed from a shortened or pre-rounded form shows.
+pub fn tie_decimals() -> BoxedStrategy<(String, String, u64)> {
+    (any::<bool>(), 0u32..19, any::<u64>(), any::<u64>(), 0u8..12, choices(), threshold_strategy())
+        .prop_map(|(en, j, ibits, fbits, tail, ch, th)| {
+            let lang = if en { "en" } else { "de" }.to_string();
+            let int = (1u64 << j) | (ibits & ((1u64 << j) - 1));
+            let n = 53 - j;
+            let mut f = (fbits & ((1u64 << n) - 1)) | 1;
+            let mut digits = String::new();
+            for _ in 0..n {
+                f *= 10;
+                digits.push(char::from(b'0' + (f >> n) as u8));
+                f &= (1u64 << n) - 1;
+            }
+            match tail {
+                0..=4 => digits.push(char::from(b'0' + 1 + tail * 2)),
+                5 => {
+                    digits.pop();
+                }
+                6 => digits.push_str("01"),
+                _ => {}
+            }
+            let mut c = crate::choose::Bytes::new(&ch);
+            let words = [crate::spell::cardinal_nk(&lang, int, &mut c), vec![crate::spell::decimal_sep(&lang).to_string()], crate::spell::fraction(&lang, &digits, &mut c)].concat();
+            (lang, words.join(" "), th)
+        })
+        .boxed()
+}
+
 impl Property for C06 {
     type Input = Case;
     fn id(&self) -> &'static str {
         "C06"
     }
     fn rule(&self) -> String {
-        "Generated: (language, text, threshold, hint bytes) from the clean and dirty sentence generators, biased so that ordinal forms, the decimal separator and digit words occur next to each other (the shapes that can produce ill-formed texts), plus arbitrary unicode. For the occurrences reported (a) through the tokenizer+annotation pipeline and (b) on an own-token stream with random separation / not-a-number hints, the validity predicate of the statement is asserted: span inside the stream, non-empty, strictly increasing and disjoint, first and last token are word tokens, no flagged token inside, text matches DIGITS (MARK DIGITS)? MARKER? with the language's decimal mark and ordinal-marker set (or 1/DIGITS for Spanish), value bit-equal to the numeric reading of the text, is_ordinal <=> marker present; for non-decimal occurrences the digits of the text equal the rendering of the public digit builder that exec_group returns for the span's words (exact digits beyond float precision). Non-trivial = distinct cases with >= 2 occurrences or an occurrence that is ordinal, decimal, has leading zeros or >= 16 digits.".into()
+        "Generated: (language, text, threshold, hint bytes) from the clean and dirty sentence generators, biased so that ordinal forms, the decimal separator and digit words occur next to each other (the shapes that can produce ill-formed texts), plus arbitrary unicode, plus (1 case in 25) English / German decimals of 35-56 dictated fractional digits whose exact value is the midpoint between two adjacent doubles, optionally one digit longer or shorter (the correctly rounded value depends on the last digit). For the occurrences reported (a) through the tokenizer+annotation pipeline and (b) on an own-token stream with random separation / not-a-number hints, the validity predicate of the statement is asserted: span inside the stream, non-empty, strictly increasing and disjoint, first and last token are word tokens, no flagged token inside, text matches DIGITS (MARK DIGITS)? MARKER? with the language's decimal mark and ordinal-marker set (or 1/DIGITS for Spanish), value bit-equal to the numeric reading of the text, is_ordinal <=> marker present; for non-decimal occurrences the digits of the text equal the rendering of the public digit builder that exec_group returns for the span's words (exact digits beyond float precision). Non-trivial = distinct cases with >= 2 occurrences or an occurrence that is ordinal, decimal, has leading zeros or >= 16 digits.".into()
     }
     fn assumptions(&self) -> Vec<String> {
         vec!["the per-language ordinal marker sets are those the library documents/emits today (en st nd rd th ths rds; fr er ère ers ères ème èmes; de '.'; nl e; it º ª; es º ª ᵒˢ ᵃˢ .ᵉʳ; pt º ª ᵒˢ ᵃˢ)".into()]
@@ -125,7 +158,7 @@ impl Property for C06 {
         let shaped = shaped_texts();
         let from_sentence = text_case(35, 12).prop_map(|tc| (tc.lang.clone(), tc.text(), tc.th_bits));
         let wild = (lang_strategy(), wild_text(), threshold_strategy());
-        (prop_oneof![8 => from_sentence, 3 => shaped, 1 => wild], proptest::collection::vec(any::<u8>(), 0..30))
+        (prop_oneof![16 => from_sentence, 6 => shaped, 2 => wild, 1 => tie_decimals()], proptest::collection::vec(any::<u8>(), 0..30))
             .prop_map(|((lang, text, th_bits), hints)| Case { lang, text, th_bits, hints })
             .boxed()
     }
